@@ -367,7 +367,7 @@ def connection(draw, i):
     v6 = draw(st.booleans())
     my, peer = (f'fd00::{i + 1}:1', f'fd00::{i + 1}:2') if v6 else (f'10.0.{i}.1', f'10.0.{i}.2')
     c = {'my_addr': my, 'peer_addr': peer}
-    ids = st.sampled_from(['alice@example.org', 'gw.example.org', '192.0.2.7', '2001:db8::7', 'x', 'a@b'])
+    ids = st.sampled_from(['alice@example.org', 'gw.example.org', '192.0.2.7', '2001:db8::7', 'x', 'a@b', 'Alice@Example.ORG', 'GW-1.Example.org', '2001:DB8::A'])
 
     def au(priv):
         d = {}
